@@ -42,7 +42,8 @@ def cases(tier, seed):
     workers = [1, 3, 16] if tier == "quick" else [1, 2, 3, 5, 16]
     for sc in scenarios.all_scenarios():
         for k in range(1 if tier == "quick" else 4):
-            cs.append({"kind": "m2", "scenario": sc.name, "seed": seed * 100 + k + 11, "workers": workers})
+            cs.append({"kind": "m2", "scenario": sc.name, "seed": seed * 100 + k + 11, "workers": workers,
+                       "nstart": 1 if tier == "quick" else 2})
     hists = [
         [{"tool": "chef_sdi", "bf": 2, "pressure": 1.0}, {"tool": "chef_sdi", "bf": 2, "pressure": 5.0}],
         [{"tool": "chef_sdi", "bf": 2, "pressure": 1.0}, {"tool": "chef_sdi", "bf": 4, "pressure": 1.0}],
@@ -160,14 +161,20 @@ def run_m2(case, work, rec):
     name = case["scenario"]
     rec.seen("tools_m2", name)
     ref = None
-    for wi, w in enumerate(case["workers"]):
+    # worker counts under the platform's own start method, then the other start methods (spawn: macOS / Windows;
+    # forkserver: Linux from Python 3.14): their workers re-import the modules instead of inheriting the parent
+    runs = [(w, None) for w in case["workers"]] + [(2, "spawn"), (3, "forkserver")][:case.get("nstart", 2)]
+    for wi, (w, start) in enumerate(runs):
         spec = {"scenario": name, "seed": case["seed"], "workers": w, "delay_seed": case["seed"] * 7 + wi,
-                "work": os.path.join(work, f"w{w}")}
+                "work": os.path.join(work, f"w{w}{start or ''}")}
+        if start:
+            spec["start"] = start
+            rec.seen("start_methods", start)
         r = sub(spec)
         rec.count("m2_runs")
-        key = (name, case["seed"], "workers", w)
+        key = (name, case["seed"], "workers", w, start)
         if not r.get("ok"):
-            rec.violation(f"{name}: run under a real pool with {w} workers raised: {r.get('error')}", key=key,
+            rec.violation(f"{name}: run under a real pool with {w} workers{' (start method ' + start + ')' if start else ''} raised: {r.get('error')}", key=key,
                           witness={"trace": r.get("trace")})
             continue
         rec.count("m2_pool_tasks", r["stats"]["tasks"])
@@ -180,7 +187,7 @@ def run_m2(case, work, rec):
         elif same(ref, r["result"]):
             rec.ok(key, w >= 2)
         else:
-            rec.violation(f"{name}: result with {w} workers differs from the result with {case['workers'][0]} worker(s)",
+            rec.violation(f"{name}: result with {w} workers{' (start method ' + start + ')' if start else ''} differs from the result with {case['workers'][0]} worker(s)",
                           key=key, witness={"tool": name, "reference": ref["parts"], "got": r["result"]["parts"]})
         shutil.rmtree(spec["work"], ignore_errors=True)
 
